@@ -247,9 +247,9 @@ sts_atmost_via_source(Source *source, Sink *sink, const size_t n)
         return -ENODATA;
     }
     const size_t m = (n == 0 || rest < n) ? rest : n;
-    const ssize_t rc = (source->kind == DATA_KIND_CHUNK)
-        ? source->source.chunk(source->driver, buf, m)
-        : source_get_chunk(source, buf, m);
+    /* At most m: an octet source may end inside the window, and what it
+     * handed out before that must still reach the sink. */
+    const ssize_t rc = source_get_chunk_atmost(source, buf, m);
     /* Nothing read (the driver asks to be called again): nothing to write. */
     return (rc <= 0) ? rc : sink_put_chunk(sink, buf, rc);
 }
